@@ -82,6 +82,12 @@ pub fn determinism(name: &str, wasm: &[u8], out: &mut Vec<Json>) {
                 out.push(v("not-a-fixpoint", "C08", format!("{}: re-parsing walrus's own output and emitting again does not reproduce it ({} vs {} bytes; sections {:?} vs {:?})", name, a.len(), a2.len(), da.map(|x| x.sections), db.map(|x| x.sections)), wasm, crate::c03::hex(&a2), crate::c03::hex(&a))); },
             _ => out.push(v("own-output-rejected", "C08 C02", format!("{}: walrus cannot re-parse its own output", name), wasm, String::new(), String::new())) }
     }
+    // ... under the synthetic-names configuration too (names invented at parse time must be the names the second trip invents or reads back)
+    if let Some(Some((a, a2))) = catch(|| { let mk = || { let mut c = ModuleConfig::new(); c.generate_synthetic_names_for_anonymous_items(true); c };
+            let a = mk().parse(wasm).ok()?.emit_wasm(); let a2 = mk().parse(&a).ok()?.emit_wasm(); Some((a, a2)) }) {
+        if a != a2 { let (da, db) = (amod::decode(&a).ok(), amod::decode(&a2).ok());
+            let which: Vec<String> = match (&da, &db) { (Some(x), Some(y)) => x.customs.iter().zip(y.customs.iter()).filter(|(p, q)| p != q).map(|(p, _)| format!("custom section `{}`", p.0)).collect(), _ => vec![] };
+            out.push(v("not-a-fixpoint", "C08", format!("{}: with generate_synthetic_names_for_anonymous_items, re-parsing walrus's own output and emitting again does not reproduce it ({} vs {} bytes; differing: {:?})", name, a.len(), a2.len(), which), wasm, crate::c03::hex(&a2), crate::c03::hex(&a))); } }
     // ... and so is the output of a module the GC pass has run on
     if let Some(Some(g)) = catch(|| { let mut m = Module::from_buffer(wasm).ok()?; passes::gc::run(&mut m); Some(m.emit_wasm()) }) { fixpoint_of_output(&format!("{} (after gc)", name), wasm, &g, out); }
 }
@@ -136,7 +142,7 @@ pub fn config(name: &str, wasm: &[u8], out: &mut Vec<Json>) {
         let r = catch(|| { let mut m = Module::from_buffer(&cur).ok()?; Some(m.emit_wasm()) });
         match r { Some(Some(o)) => { let p = prod_of(&o).unwrap_or_default();
                 let n_walrus: usize = p.iter().filter(|f| f.0 == "processed-by").map(|f| f.1.iter().filter(|x| x.0 == "walrus").count()).sum();
-                let others = |p: &Vec<(String, Vec<(String, String)>)>| -> Vec<(String, Vec<(String, String)>)> { p.iter().map(|f| (f.0.clone(), f.1.iter().filter(|x| !(f.0 == "processed-by" && x.0 == "walrus")).cloned().collect::<Vec<_>>())).filter(|f: &(String, Vec<(String, String)>)| !f.1.is_empty()).collect() };
+                let others = |p: &Vec<(String, Vec<(String, String)>)>| -> Vec<(String, Vec<(String, String)>)> { p.iter().map(|f| (f.0.clone(), f.1.iter().filter(|x| !(f.0 == "processed-by" && x.0 == "walrus")).cloned().collect::<Vec<_>>())).filter(|f: &(String, Vec<(String, String)>)| !(f.0 == "processed-by" && f.1.is_empty())).collect() };
                 if n_walrus != 1 { out.push(v("processed-by-count", "C14", format!("{}: after {} round trip(s) walrus is recorded {} times as processing tool", name, round, n_walrus), wasm, format!("{:?}", p), String::new())); }
                 if others(&p) != others(&input_prod) { out.push(v("producers-fields-changed", "C14", format!("{}: producers fields of the input are not preserved after {} round trip(s)", name, round), wasm, format!("{:?}", p), format!("{:?}", input_prod))); }
                 cur = o; }
@@ -197,9 +203,14 @@ pub fn index_maps(name: &str, wasm: &[u8], obs: &Observed, out: &mut Vec<Json>) 
         walrus::ValType::Ref(walrus::RefType::Externref) => wasmparser::ValType::Ref(wasmparser::RefType::EXTERNREF), _ => wasmparser::ValType::Ref(wasmparser::RefType::FUNCREF) } };
     // parse-time: types by structure, functions by (import name | signature), tables/memories/globals by attributes, segments by payload, locals by type
     for (i, id) in obs.pm.types.iter().enumerate() { if let (Some(t), Some(want)) = (m.types.iter().find(|t| t.id().index() == *id), a.types.get(i)) { let got = (t.params().iter().map(wvt).collect::<Vec<_>>(), t.results().iter().map(wvt).collect::<Vec<_>>()); if &got != want { bad(format!("parse-time type index {} maps to a type with another signature", i)); } } }
+    // two indices of one space never denote the same entity (types excepted: equal signatures are merged)
+    for (what, ids) in [("function", &obs.pm.funcs), ("table", &obs.pm.tables), ("memory", &obs.pm.memories), ("global", &obs.pm.globals), ("element segment", &obs.pm.elements), ("data segment", &obs.pm.data)] {
+        let mut seen = std::collections::HashMap::new(); for (i, id) in ids.iter().enumerate() { if let Some(j) = seen.insert(*id, i) { bad(format!("parse-time {} indices {} and {} map to the same entity", what, j, i)); } } }
     let fimps: Vec<_> = a.imports.iter().filter(|i| matches!(i.2, AImportKind::Func(_))).collect();
     for (i, id) in obs.pm.funcs.iter().enumerate() { if let Some(f) = m.funcs.iter().find(|f| f.id().index() == *id) { match &f.kind {
-        FunctionKind::Import(im) => { let imp = m.imports.get(im.import); match fimps.get(i) { Some(w) => if w.0 != imp.module || w.1 != imp.name { bad(format!("parse-time function index {} maps to import {}.{} but the binary imports {}.{} there", i, imp.module, imp.name, w.0, w.1)); }, None => bad(format!("parse-time function index {} maps to an import but the binary defines a local function there", i)) } }
+        FunctionKind::Import(im) => { let imp = m.imports.get(im.import);
+            { let t = m.types.get(f.ty()); let got = (t.params().iter().map(wvt).collect::<Vec<_>>(), t.results().iter().map(wvt).collect::<Vec<_>>()); if i < fimps.len() && Some(got) != func_sig(a, i as u32) { bad(format!("parse-time function index {} maps to an imported function with another signature", i)); } }
+            match fimps.get(i) { Some(w) => if w.0 != imp.module || w.1 != imp.name { bad(format!("parse-time function index {} maps to import {}.{} but the binary imports {}.{} there", i, imp.module, imp.name, w.0, w.1)); }, None => bad(format!("parse-time function index {} maps to an import but the binary defines a local function there", i)) } }
         FunctionKind::Local(l) => { if i < fimps.len() { bad(format!("parse-time function index {} maps to a local function but the binary imports a function there", i)); } else { let t = m.types.get(l.ty()); let got = (t.params().iter().map(wvt).collect::<Vec<_>>(), t.results().iter().map(wvt).collect::<Vec<_>>()); if Some(got) != func_sig(a, i as u32) { bad(format!("parse-time function index {} maps to a function with another signature", i)); }
             // locals: params then declared, by type
             if let (Some(ls), Some(body)) = (obs.pm.locals.get(id), a.code.get(i - fimps.len())) { let mut want: Vec<wasmparser::ValType> = func_sig(a, i as u32).map(|s| s.0).unwrap_or_default(); for (c, t) in &body.locals { for _ in 0..*c { want.push(*t); } }
